@@ -309,6 +309,26 @@ class PRich:
         return self._text
 
 
+class Hostile:
+    """a value that cannot be compared, hashed or tested for truth (numpy-array style / a broken __eq__): the engine has
+    no business doing any of that to a local it only carries around"""
+
+    def __eq__(self, other):
+        raise RuntimeError("hostile __eq__")
+
+    def __ne__(self, other):
+        raise RuntimeError("hostile __ne__")
+
+    def __bool__(self):
+        raise RuntimeError("hostile __bool__")
+
+    def __hash__(self):
+        raise RuntimeError("hostile __hash__")
+
+    def __str__(self):
+        return "H"
+
+
 class PGetItemSeq:
     """iterable only through the old __getitem__ protocol (IndexError ends it)"""
 
@@ -344,7 +364,7 @@ def make_data(w, async_data):
         "it": PAIter(w, [3, 1, 2]) if async_data else PIterOnly(w, [3, 1, 2]),
         "s": PStr(w, "t<s>"),
         "k": k,
-        "q": PRich(w, 3), "q2": PRich(w, 1, "<r2>"), "gi": PGetItemSeq(w, [5, 6]),
+        "hostile": Hostile(), "q": PRich(w, 3), "q2": PRich(w, 1, "<r2>"), "gi": PGetItemSeq(w, [5, 6]),
     }
     g = PRec(w, {"a": "ga"}, {}, "G")
     return d, g
@@ -370,6 +390,8 @@ SNIPS = [
     "{{ r is mapping }}", "{{ o|attr('a') }}", "{{ r|attr('zz') is undefined }}", "{{ o[k] is undefined }}", "{{ r[k] }}",
     "{{ o|length }}", "{{ 1 in o }}", "{{ o.n + 1 }}", "{{ r.n|int }}", "{{ o|list }}", "{{ o|first }}", "{{ o|reverse|list }}",
     "{{ g.a }}", "{{ o|default('d') }}", "{{ o.b|string }}",
+    # a value with hostile __eq__ / __bool__ / __hash__ held in the locals of the frame that fails
+    "{{ hostile is defined }}{{ f() }}{{ o.a }}", "{% with hv = hostile %}{{ r.a }}{{ f() }}{% endwith %}",
     # truth, equality, hashing, ordering, containment, numeric and markup / format conversions, __getitem__-only iteration
     "{% if q %}T{% endif %}{{ q and 1 }}{{ not q }}", "{{ q == 3 }}{{ q != q2 }}{{ q in [q2, q] }}", "{{ 3 in q }}{{ 4 in q }}",
     "{{ [q, q2]|sort|length }}{{ [q2, q]|max is defined }}", "{{ [q, q2, q]|unique|list|length }}", "{{ {q: 1}|length }}{{ [q, q2]|groupby('zz')|length }}",
@@ -427,6 +449,7 @@ FIXED = [
     "{{ r[k] }}|{{ o[k] is undefined }}|{{ o is sequence }}",
     "{% import 'lib.html' as L %}{{ L.lm(r) }}{{ L.v }}|{{ f() }}|{% for x in xs if x.a %}[{{ x.n }}]{% endfor %}",
     # every kind of call on data objects that also answer attribute lookups (the sandbox probes them before calling)
+    "{{ hostile }}{% set hh = hostile %}{{ f() }}{{ o.a }}{% for x in xs %}{{ hostile is defined }}{{ x.a }}{% endfor %}{% macro hm(p) %}{{ f() }}{{ p }}{% endmacro %}{{ hm(hostile) }}",
     "{% trans v=s, w=q %}v={{ v }} w={{ w }}{% endtrans %}|{{ gettext('a %(x)s', x=s) if false else _('p') }}|{% trans n=o.n %}{{ n }} one{% pluralize %}{{ n }} many{% endtrans %}",
     "{% trans v=s %}v={{ v }}{% endtrans %}|{{ ngettext('%(num)d a', '%(num)d b', 2) }}|{% trans %}plain {{ s }}{% endtrans %}",
     "{{ o(1) }}|{{ o.m(2) }}|{{ f() }}|{% for x in o.b.c if x %}{{ x }}{% endfor %}|{% for x in it %}{{ loop }}{% endfor %}",
@@ -700,6 +723,13 @@ def run(ctx):
             sig = f"foreign exception lost: {where} on {kind} event"
             ctx.reject(dict(case, real=real, model=p), "a foreign exception raised by data did not come out of the render "
                        f"as the same object ({real}); decided at {where}", sig)
+            continue
+        if (kind == "attr" and exc_cls in (PType, PKeyE, PIndex, PLookup2, PValue) and not real_same and stack
+                and stack[0][0] == "environment.Environment.getattr"):
+            # documented: Environment.getattr falls back to the item lookup only on AttributeError; TypeError / LookupError are
+            # absorbed for the ITEM lookup.  A property whose own code raises KeyError / TypeError must not render as undefined.
+            ctx.reject(dict(case, real=real, model=p), "a " + exc_cls.__mro__[1].__name__ + " raised by the attribute access itself was absorbed by "
+                       "Environment.getattr (only AttributeError selects the item fallback)", "non-AttributeError from getattr absorbed by Environment.getattr")
             continue
         if exc_cls is PStop and kind not in ("call", "acall", "next", "anext") and not real_same and real.startswith("other:RuntimeError"):
             # the property lists StopIteration as a signal only "from a callable"; from an attribute / item / str event it
